@@ -732,6 +732,8 @@ SA_All == {SA(o, F, si, au) : o \in {"add", "rem", "set"}, F \in {{"Seen"}, {"De
                 \cup {SA("set", {}, FALSE, FALSE)}
 SA_Small == {SA("add", {"Deleted"}, FALSE, FALSE), SA("add", {"Seen"}, FALSE, FALSE), SA("rem", {"Seen"}, TRUE, FALSE),
              SA("set", {"Flagged"}, FALSE, TRUE), SA("set", {}, FALSE, FALSE)}
+SA_Cross == {SA("add", {"Deleted"}, FALSE, FALSE), SA("set", {"Seen"}, FALSE, FALSE), SA("set", {"Deleted", "Flagged"}, FALSE, FALSE),
+             SA("rem", {"Seen"}, FALSE, FALSE), SA("add", {"Flagged"}, TRUE, FALSE)}
 CF_None == {{}}
 CF_Seen == {{}, {"Seen"}}
 CF_All == SUBSET SharedFlags
@@ -749,6 +751,10 @@ ScriptTwoOnA == <<
   Sc("Select", "s1", <<"A">>), Sc("Select", "s2", <<"A">>),
   Sc("Append", "s1", <<"A", "m1", 1>>), Sc("Deliver", "s2", <<"Exists", TRUE>>), Sc("Noop", "s2", <<>>),
   Sc("Append", "s1", <<"A", "m2", 2>>), Sc("Deliver", "s2", <<"Exists", TRUE>>), Sc("Noop", "s2", <<>>) >>
+\* prefix: m1 is in A and in B; s1 has A selected, s2 has B selected
+ScriptCross == <<
+  Sc("Select", "s1", <<"A">>), Sc("Append", "s1", <<"A", "m1", 1>>), Sc("Append", "s1", <<"A", "m2", 2>>),
+  Sc("Copy", "s1", <<<<1>>, "B", <<1>>>>), Sc("Select", "s2", <<"B">>) >>
 \* F14: s2 sets \Seen (queued to s1); s1 removes \Seen before applying it; the queued "add" lands afterwards
 ScriptF14 == <<
   Sc("Select", "s1", <<"A">>), Sc("Append", "s1", <<"A", "m1", 1>>), Sc("Select", "s2", <<"A">>),
